@@ -448,6 +448,8 @@ func drawPlan(t *rapid.T, prop, family string) *Plan {
 		p = g.planC01()
 	case "C08":
 		p = g.planC08()
+	case "C09":
+		p = g.planC09()
 	case "C10":
 		p = g.planC10()
 	case "C05", "C06":
